@@ -507,29 +507,80 @@ func (tb *TB) BinBV(op string, a, b *Term) *Term {
 	return t
 }
 
-// liftInt tries to express a BV term as a (non-negative, small) mathematical Int term.
-// Only terms that are exactly int2bv(x) with 0 <= x < 2^31 by construction (string lengths)
-// and non-negative constants < 2^62 are lifted.
+// liftInt expresses a BV term built from string lengths (int2bv of an Int), small constants and
+// +/- as a mathematical Int term. Go lengths are < 2^63 and the constants involved are small, so
+// the 64-bit arithmetic cannot wrap. Returns ok only if the term contains a length.
 func (tb *TB) liftInt(t *Term) (*Term, bool) {
-	if t.Op == "int2bv" {
-		return t.Args[0], true
+	r, hasLen, ok := tb.liftRec(t)
+	if !ok || !hasLen {
+		return nil, false
 	}
-	return nil, false
+	return r, true
+}
+
+func (tb *TB) liftRec(t *Term) (*Term, bool, bool) {
+	switch {
+	case t.Op == "int2bv":
+		return t.Args[0], true, true
+	case t.IsConst() && t.Sort.K == KBV:
+		v := sext(t.U, t.Sort.W)
+		if v > -(1<<40) && v < (1<<40) {
+			return tb.Int(v), false, true
+		}
+	case t.Op == "bvadd" || t.Op == "bvsub":
+		a, ha, oka := tb.liftRec(t.Args[0])
+		b, hb, okb := tb.liftRec(t.Args[1])
+		if oka && okb && (ha || hb) {
+			if t.Op == "bvadd" {
+				return tb.IntAdd(a, b), true, true
+			}
+			return tb.IntSub(a, b), true, true
+		}
+	}
+	return nil, false, false
+}
+
+// bvAsInt converts an arbitrary BV term to Int (signed or unsigned interpretation).
+func (tb *TB) bvAsInt(b *Term, signed bool) *Term {
+	if b.IsConst() {
+		if signed {
+			return tb.Int(sext(b.U, b.Sort.W))
+		}
+		return tb.Int(int64(b.U)) // callers never pass constants >= 2^63 here (guarded)
+	}
+	n := tb.app("bv2nat", SortInt, b)
+	if !signed {
+		return n
+	}
+	w := b.Sort.W
+	var two *Term
+	if w >= 64 {
+		two = tb.intern(&Term{Op: "raw", Sort: SortInt, S: "18446744073709551616"})
+	} else {
+		two = tb.Int(int64(1) << uint(w))
+	}
+	return tb.Ite(tb.app("bvslt", SortBool, b, tb.BV(w, 0)), tb.app("-", SortInt, n, two), n)
 }
 
 func (tb *TB) liftPair(a, b *Term) (*Term, *Term, bool) {
 	la, oka := tb.liftInt(a)
 	lb, okb := tb.liftInt(b)
-	if oka && okb {
-		return la, lb, true
+	if !oka && !okb {
+		return nil, nil, false
 	}
-	if oka && b.IsConst() && a.Sort.W == 64 {
-		return la, tb.Int(int64(b.U)), true
+	if !oka {
+		if a.IsConst() && a.U >= 1<<63 {
+			return nil, nil, false
+		}
+		la = tb.bvAsInt(a, false)
 	}
-	if okb && a.IsConst() && a.Sort.W == 64 {
-		return tb.Int(int64(a.U)), lb, true
+	if !okb {
+		if b.IsConst() && b.U >= 1<<63 {
+			return nil, nil, false
+		}
+		lb = tb.bvAsInt(b, false)
 	}
-	return nil, nil, false
+	return la, lb, true
 }
 
 // CmpBV builds a comparison: op in bvult bvule bvugt bvuge bvslt bvsle bvsgt bvsge.
@@ -582,32 +633,25 @@ func (tb *TB) liftPairSigned(op string, a, b *Term) (*Term, *Term, bool) {
 	signed := strings.HasPrefix(op, "bvs")
 	la, oka := tb.liftInt(a)
 	lb, okb := tb.liftInt(b)
-	conv := func(c *Term) (*Term, bool) {
-		if !c.IsConst() {
-			return nil, false
-		}
-		if signed {
-			return tb.Int(sext(c.U, c.Sort.W)), true
-		}
-		if c.U > 1<<62 {
-			return nil, false
-		}
-		return tb.Int(int64(c.U)), true
+	if !oka && !okb {
+		return nil, nil, false
 	}
-	if oka && okb {
-		return la, lb, true
+	if a.Sort.W != 64 {
+		return nil, nil, false
 	}
-	if oka {
-		if cb, ok := conv(b); ok {
-			return la, cb, true
+	if !oka {
+		if !signed && a.IsConst() && a.U >= 1<<63 {
+			return nil, nil, false
 		}
+		la = tb.bvAsInt(a, signed)
 	}
-	if okb {
-		if ca, ok := conv(a); ok {
-			return ca, lb, true
+	if !okb {
+		if !signed && b.IsConst() && b.U >= 1<<63 {
+			return nil, nil, false
 		}
+		lb = tb.bvAsInt(b, signed)
 	}
-	return nil, nil, false
+	return la, lb, true
 }
 
 func (tb *TB) IntCmp(op string, a, b *Term) *Term {
